@@ -2,14 +2,23 @@ from rtamt.syntax.ast.visitor.ltl.ast_visitor import LtlAstVisitor
 from rtamt.exception.exception import RTAMTException
 from rtamt.explanation.ltl.discrete_time.explanations import *
 
+class Explanations(dict):
+    # a sub-formula may be reached several times: its explanation is the union
+    def __setitem__(self, key, intervals):
+        if key in self:
+            intervals = interval_union(self[key] + intervals)
+        dict.__setitem__(self, key, intervals)
+
+
 class LTLExplainer(LtlAstVisitor):
 
     def __init__(self):
         super().__init__()
-        self.explanations = dict()
+        self.explanations = Explanations()
 
     def explain(self, spec):
         self.spec = spec
+        self.explanations.clear()
         for spec in self.spec.specs:
             top_signal = self.spec.results[spec]
             if top_signal[0] < 0:
